@@ -25,6 +25,7 @@ type GuardTag struct {
 	Obj  string // owner object ("" for globals)
 	What string // location name for the obligation
 	Decl *GuardDecl
+	Elem bool // the tagged value is an object read out of the guarded map (not the map itself)
 }
 
 // Addr is a symbolic memory location.
